@@ -181,4 +181,55 @@ PROPS = {
                                     "mutation:token-splice", "mutation:comma-insert", "mutation:terminator-delete", "bytes"]},
         "min_evals": {"quick": 300_000, "thorough": 10_000_000},
     },
+    "C07": {
+        "quick": [phase(16, 1.0, 90)],
+        "thorough": [phase(16, 1.0, 1500)],
+        "rule": ("cases = (filter, record) pairs. (a) term matrix, complete: tag/not-tag/every comparison operator x every literal of a "
+                 "25-literal pool, on every state of tag 'a' (missing, Null, each of 31 near-colliding values, empty list, list holding the "
+                 "value, empty dict) = one cell each; (b) random and/or/paren filters (paths of 1-3 segments through nested dicts) on random "
+                 "records through Dict::filter; (c) the same through EvalContext with a harness PathResolver whose refs form chains and a "
+                 "cycle, including '*=='; (d) Grid::filter / filter_all = first / all matching rows by row identity. The filter is printed, "
+                 "parsed by libhaystack and evaluated; the oracle is the reference evaluator of harness/src/reffilter.rs (statement "
+                 "semantics). A disagreement is localised to the first single term that disagrees. distinct = distinct (filter, record)"),
+        "assumptions": ["don't-cares are skipped and counted, never asserted: ordering of Numbers with different units, ordering of kinds "
+                        "without a defined order (Bool, Uri, Ref, Symbol), equality of the same instant in two zones",
+                        "'^sym' and 'rel?' are evaluated here against the empty default namespace (always false); with real defs in C13",
+                        "path resolution of the caller-supplied resolver is the caller's code (delegated to the library's Dict resolver)"],
+        "require_strata": {"both": ["term-matrix", "random", "resolver", "grid"]},
+        "min_evals": {"quick": 300_000, "thorough": 8_000_000},
+    },
+    "C08": {
+        "quick": [phase(16, 1.0, 90)],
+        "thorough": [phase(16, 1.0, 1500)],
+        "rule": ("cases = filter trees: (a) the bounded space of all trees 't', 't and t', 't or t', 't and t or t', 't or t and t', "
+                 "'(t or t) and t' over a set of 46 small terms (~2.96e5 trees; enumerated completely across shards in thorough, strided "
+                 "sample in quick); (b) random trees to paren depth 3 with every term kind and every literal kind the syntax admits "
+                 "(escaped strings, numbers with units/exponents, dates, times, zoned timestamps, refs with dis, uris, symbols, bools). Each "
+                 "is printed by the reference printer with random legal whitespace/line breaks, parsed by Filter::try_from, and the tree "
+                 "observed through the public Or/And/Term fields must equal the printed tree; then Display -> try_from must give an equal "
+                 "tree and an == filter. distinct = distinct trees"),
+        "assumptions": ["the display name of the Ref operand of '*==' and of relation terms is a don't-care (not printed by Display, ignored by Ref equality)",
+                        "NaN/INF/Coord/XStr/collections are outside the filter syntax; tag names avoid the keywords and/or/not/true/false"],
+        "require_strata": {"both": ["small", "random", "term:cmp", "term:wildcard", "term:rel", "term:isa", "term:missing", "literal:dateTime",
+                                    "literal:str", "literal:number", "literal:ref", "literal:uri", "literal:symbol", "literal:date", "literal:time",
+                                    "literal:bool"]},
+        "min_evals": {"quick": 150_000, "thorough": 3_000_000},
+    },
+    "C09": {
+        "quick": [phase(16, 1.0, 90)],
+        "thorough": [phase(16, 1.0, 1500),
+                     phase(1, 1.0, 300, flavour="release", streams=LADDER_STREAMS),
+                     phase(1, 1.0, 300, flavour="dev", streams=LADDER_STREAMS)],
+        "crash_is_violation": True,
+        "rule": ("cases = filter texts: parenthesis ladders '(', '(a and ', '(not a or ' at depths 1..1e5 closed and unclosed; valid filters "
+                 "(reference printer) with every prefix (thorough; 24 sampled in quick) and 24 stacked-mutation mutants each; operators "
+                 "without operands, token soup, raw bytes; relationship terms. Filter::try_from runs under the panic/abort/fuel monitor "
+                 "(8*len+256 lexer steps, confirmed at 1000x). Every filter that parses is evaluated on a record of a 5-record world "
+                 "whose ref tags form cycles and self-loops, through Dict::filter and through EvalContext over the real defs namespace "
+                 "(tests/defs/defs.zinc) with a resolver that aborts the evaluation if asked more than 40 times (4*(records+1)+16)"),
+        "assumptions": ["termination restated as bounded steps: lexer fuel for parsing, resolver-call cap for evaluation; a loop that touches "
+                        "neither is only seen by the wall-clock watchdog (inconclusive)"],
+        "require_strata": {"both": ["outcome:ok", "outcome:err", "eval:returned", "ladder-paren:depth100000", "prefix", "mutant", "soup", "relation"]},
+        "min_evals": {"quick": 300_000, "thorough": 10_000_000},
+    },
 }
